@@ -164,6 +164,8 @@ Proof.
     destruct (status_of s k); try discriminate.
     destruct (resolve (versions_of k (s_objs s)) VLatest); discriminate.
   - discriminate.
+  - unfold do_multipart. destruct (write_many s (store_for cfg cls) cs) as [[s1 ps] fl]. discriminate.
+  - reflexivity.
   - reflexivity.
   - reflexivity.
   - reflexivity.
@@ -339,3 +341,26 @@ Proof.
     rewrite Ho, replace_row_versions. cbn [add_refs with_reg s_objs]. rewrite H1, resolve_update_obj. exact Hr. }
   unfold read, find_row. rewrite Hres, Hr, Hn', Hn. apply read_parts_nth. exact Hb.
 Qed.
+
+(* ---------------- store kinds: the read mode is admissible for every store ---------------- *)
+Lemma all_tx_free_nth kd : forallb negb kd = true -> forall i, nth i kd false = false.
+Proof.
+  induction kd as [|b kd IH]; intros H i; [destruct i; reflexivity|].
+  cbn [forallb] in H. apply andb_true_iff in H as [Hb Hr]. destruct i; cbn [nth].
+  - destruct b; [discriminate | reflexivity].
+  - apply IH, Hr.
+Qed.
+Lemma read_mode_admissible kd ps : forallb (part_mode_ok kd (tx_free_streaming kd)) ps = true.
+Proof.
+  apply forallb_forall. intros p _. unfold part_mode_ok.
+  destruct (tx_free_streaming kd) eqn:E; [|reflexivity]. cbn [negb orb].
+  unfold needs_tx. unfold tx_free_streaming in E. rewrite (all_tx_free_nth kd E). reflexivity.
+Qed.
+Lemma read_parts_k_eq kd s ps : read_parts_k kd s ps = read_parts s ps.
+Proof. unfold read_parts_k. rewrite read_mode_admissible. reflexivity. Qed.
+Lemma read_k_eq kd s k v : read_k kd s k v = read s k v.
+Proof. unfold read_k, read. destruct (find_row s k v); [apply read_parts_k_eq | reflexivity]. Qed.
+(* a mode decision taken from ONE store (e.g. the default store) is not admissible in general *)
+Lemma single_store_mode_inadmissible :
+  exists kd p, part_mode_ok kd (negb (needs_tx kd 0)) p = false.
+Proof. exists [false; true; false], (mkP 0 1 0). reflexivity. Qed.
